@@ -341,6 +341,10 @@ int secp256k1_ecdsa_adaptor_recover(const secp256k1_context* ctx, unsigned char 
     ret &= secp256k1_scalar_eq(&adaptor_sigr, &r);
     /* y = s⁻¹ * s' */
     ret &= !secp256k1_scalar_is_zero(&s);
+    /* A parsed signature can have s = 0 (or an unrelated r). Continue with
+     * s = 1 in that case so that everything below stays well defined; the
+     * function still returns 0 because ret is 0. */
+    secp256k1_scalar_cmov(&s, &secp256k1_scalar_one, !ret);
     secp256k1_scalar_inverse(&deckey, &s);
     secp256k1_scalar_mul(&deckey, &deckey, &sp);
 
@@ -356,8 +360,9 @@ int secp256k1_ecdsa_adaptor_recover(const secp256k1_context* ctx, unsigned char 
      *     enckey_expected_ge is infinity <=> deckey = 0
      *     deckey = 0 <=> s^-1 = 0 or sp = 0
      *     case 1: s^-1 = 0 impossible by the definition of multiplicative
-     *             inverse and because the scalar_inverse implementation
-     *             VERIFY_CHECKs that the inputs are valid scalars.
+     *             inverse, because s = 0 was replaced by 1 above, and because
+     *             the scalar_inverse implementation VERIFY_CHECKs that the
+     *             inputs are valid scalars.
      *     case 2: sp = 0 impossible because ecdsa_adaptor_sig_deserialize would have already failed
      */
     secp256k1_eckey_pubkey_serialize33(&enckey_expected_ge, enckey_expected33);
